@@ -45,7 +45,11 @@ func fetchKeys(iterator func(string) ([]string, string, error), keyBatchChan cha
 		}
 
 		if len(ks) == 0 {
-			break
+			if next == "" {
+				break
+			}
+			// a page may be empty (e.g. emptied by a key filter) while more keys follow
+			continue
 		}
 
 		select {
